@@ -230,3 +230,62 @@ func Reachable(schemas ast.Schemas, pkg string, roots []string) map[string]bool 
 	}
 	return reach
 }
+
+// OrphanMappings counts discriminator-mapping entries whose target is not the
+// type of any branch of their disjunction. The statement does not speak of them
+// (their target may well exist), but once a history has produced one, a later
+// rename cannot be expected to keep it in step: such an IR is not judged further.
+func OrphanMappings(schemas ast.Schemas) int {
+	n := 0
+	var walk func(v reflect.Value, depth int)
+	walk = func(v reflect.Value, depth int) {
+		if !v.IsValid() || depth > 100 {
+			return
+		}
+		if v.Type() == tDisj {
+			d := v.Interface().(ast.DisjunctionType)
+			for _, target := range d.DiscriminatorMapping {
+				found := false
+				for _, b := range d.Branches {
+					if b.Kind == ast.KindRef && b.Ref != nil && b.Ref.ReferredType == target {
+						found = true
+					}
+				}
+				if !found {
+					n++
+				}
+			}
+		}
+		switch v.Kind() {
+		case reflect.Ptr, reflect.Interface:
+			if !v.IsNil() {
+				walk(v.Elem(), depth+1)
+			}
+		case reflect.Struct:
+			for i := 0; i < v.NumField(); i++ {
+				if v.Type().Field(i).IsExported() {
+					walk(v.Field(i), depth+1)
+				}
+			}
+		case reflect.Slice, reflect.Array:
+			for i := 0; i < v.Len(); i++ {
+				walk(v.Index(i), depth+1)
+			}
+		case reflect.Map:
+			it := v.MapRange()
+			for it.Next() {
+				walk(it.Value(), depth+1)
+			}
+		}
+	}
+	for _, s := range schemas {
+		if s == nil || s.Objects == nil {
+			continue
+		}
+		walk(reflect.ValueOf(s.EntryPointType), 0)
+		for _, o := range s.Objects.Values() {
+			walk(reflect.ValueOf(o.Type), 0)
+		}
+	}
+	return n
+}
